@@ -56,7 +56,8 @@ let case line =
       | 'd' -> (p, EDir (n_of_int e.mtime, n_of_int e.mode))
       | _ -> (p, ELink (n_of_int e.target))) dest in
   let o = { o_delete = delete; o_verify = verify; o_sparse = sparse } in
-  let r = restore code_cfg o (nl droot) roots world in
+  (* the coalesced execution: PackInfo::coalesce with the extracted guard and constants *)
+  let r = restore_c code_cfg code_coalesce_guard code_cc o (nl droot) roots world in
   let out = match r.r_out with OOk -> "ok" | OErr -> "err" | OPanic -> "panic" in
   let listing = walk (nl droot) r.r_fs in
   let strip p = let rec drop k l = if k = 0 then l else match l with [] -> [] | _ :: r -> drop (k - 1) r in drop (List.length droot) p in
